@@ -166,8 +166,8 @@ PROPS['C10'] = dict(
     title='The solver reads an instance file as the instance the file denotes',
     functions=[FIO + '_get_simple_pref_list_and_ranks', FIO + '_create_pairs_row', FIO + '_create_student_ranks', FIO + '_set_lecturers', FIO + '_set_lecturer_ranks',
                MOD + 'set_project_lists', MOD + 'set_lecturer_lists', MOD + 'set_rank_lists', MOD + '_get_max_rank'],
-    lemmas=['C13/writer-shape', 'LISTSET/empty-append', 'LISTSET/iterate'], level='other',
-    level_text='proved for all list lengths / instance sizes: the tie-aware tokeniser (values in order, dense ranks following the tie groups), the construction of a student\'s row of fresh Pair objects, the per-lecturer rank dictionary, the assignment of lecturers and lecturer ranks to every pair, and the derived project / lecturer / rank lists (each holds exactly the pairs of that project / lecturer / rank; one rank list per rank up to the maximum).  NOT proved deductively (bounded stand-in): _import_from_file itself (the four sections delimited by the header counts, the 2-agent embedding, ignoring the trailing block) and the character-level lexer',
+    lemmas=['C13/writer-shape', 'LISTSET/empty-append', 'LISTSET/iterate', 'SUM/ext', 'C10/derived-lists-compose'], level='other',
+    level_text='proved for all list lengths / instance sizes: the tie-aware tokeniser (values in order, dense ranks following the tie groups), the construction of a student\'s row of fresh Pair objects, the per-lecturer rank dictionary, the assignment of lecturers and lecturer ranks to every pair, and the derived project / lecturer / rank lists (each holds exactly the pairs of that project / lecturer / rank - as element sets and, for project and lecturer lists, as a sum identity for every weight, so no pair is listed twice; one rank list per rank up to the maximum); composition lemma: these postconditions are what Solver.solve requires of the derived lists.  NOT proved deductively (bounded stand-in): _import_from_file itself (the four sections delimited by the header counts, the 2-agent embedding, ignoring the trailing block) and the character-level lexer',
     harness=True, bound='<= 13 agents per side (two-digit numbers inside tie groups), 2-/3-agent, +-twopl, +-trailing block, extra blanks',
     budget={'quick': 20, 'thorough': 300},
     trusted=[T['T6'], T['T7'], 'T8 a file reads back as its lines in order'],
